@@ -35,7 +35,7 @@ Fixpoint run_keys (c : cfg) (w : world) (ops : list op) : list (out * list nat) 
               ((x, match w_h w1 with Some h => map fst (h_cache h) | None => [] end) :: xs, v)
   end.
 Definition P (d b : nat) (e : Z) : path := mkPath d b (if (e =? 0)%Z then XNc else if (e =? 1)%Z then XStore else XOther).
-Definition T (tag : Z) (i : option Z) (sg : Z) (k : Z) : traj := mkTraj tag i sg (if (k =? 0)%Z then TOk else TMissingReq).
+Definition T (tag : Z) (i : option Z) (sg : Z) (k : Z) (sz : nat) : traj := mkTraj tag i sg (if (k =? 0)%Z then TOk else TMissingReq) sz.
 '''
 
 FINDINGS = ('F5', 'F6', 'F7', 'F8', 'C08a', 'C09a', 'C10a')
@@ -47,6 +47,7 @@ SIG = {
     'C08a': 'append-to-unidentified-store-accepts-identified-trajectory',
     'C09a': 'merge-inputs-sharing-a-file-name-overwrite-each-other',
     'C10a': 'append-session-empty-cache-skips-fieldset-check',
+    'C07a': 'read-of-a-trajectory-larger-than-the-cache-raises-value-too-large',
 }
 REJECT = ('ESchema', 'EIdUse', 'ERequired')
 REFUSE = ('EMissing', 'ENotNc', 'EBadExt', 'EExists', 'EDupNames', 'EFieldsets', 'EIdMix', 'EAssert', 'EArgs')
@@ -75,6 +76,7 @@ class Env:
             from AEIC.trajectories import store as store_mod
             from AEIC.trajectories.trajectory import Trajectory
             e = cls()
+            e._sizes = {}
             e.np, e.nc4, e.TS, e.Trajectory, e.FieldSet, e.store_mod = np, nc4, TrajectoryStore, Trajectory, FieldSet, store_mod
             if not FieldSet.known(XFS):
                 FieldSet(XFS, atag=FieldMetadata(dimensions=Dimensions(Dimension.TRAJECTORY), field_type=np.int32,
@@ -104,11 +106,41 @@ class Env:
             t.atag = 1000 + tag
         return t
 
-    def cache_mb(self, k):
-        """cache_size_mb that holds exactly k payload trajectories (k None: the default, unbounded here)."""
-        if k is None:
+    def cache_mb(self, nbytes):
+        """cache_size_mb for a cache of `nbytes` bytes (None: the default, never reached here)."""
+        if nbytes is None:
             return 2048
-        return (k * self.nb + 100) / (1024.0 * 1024.0)
+        return (nbytes + 0.5) / (1024.0 * 1024.0)
+
+    def size_of(self, npts, sig):
+        """Trajectory.nbytes of a payload trajectory: what the LRU cache charges for it"""
+        key = (npts, sig)
+        if key not in self._sizes:
+            self._sizes[key] = int(self.mk(0, None, sig, 'ok', npts=npts).nbytes)
+        return self._sizes[key]
+
+
+NB = 288          # size of the default 2-point payload with the extra field set (284 without)
+
+
+def cap_of(o, big=False):
+    """capacity in bytes of the cache a create / open operation asks for (None: never reached).
+    'cache': k = room for k default payloads; 'cache_b': bytes.  In-memory: 'cap' / 'cap_b'."""
+    if big:
+        return 2           # integer-cache-size scenarios: all payloads equal, unit = one payload, 1 MB holds two
+    if o.get('cache_b') is not None:
+        return int(o['cache_b'])
+    if o.get('cap_b') is not None:
+        return int(o['cap_b'])
+    k = o.get('cap') if o['op'] == 'create_mem' else o.get('cache')
+    return None if k is None else k * NB + 100
+
+
+def size_of_add(o, big=False):
+    if big:
+        return 1
+    npts = o.get('npts', 2)
+    return 112 * npts + 60 + (4 if o.get('sig', 0) == 1 else 0)
 
 
 def tag_of(t):
@@ -219,7 +251,7 @@ def impl_run(root: Path, hist):
     root.mkdir(parents=True, exist_ok=True)
     ts = None
     recs = []
-    npts = 4000 if any(o.get('big') for o in hist) else 2
+    big = any(o.get('big') for o in hist)
 
     def keys():
         if ts is None or ts.base_file is None:
@@ -227,7 +259,7 @@ def impl_run(root: Path, hist):
         return sorted(int(k) for k in ts._trajectories.keys())
 
     def cache_arg(o):
-        return 1 if o.get('big') else e.cache_mb(o.get('cache'))
+        return 1 if o.get('big') else e.cache_mb(cap_of(o))
 
     for o in hist:
         k = o['op']
@@ -246,14 +278,17 @@ def impl_run(root: Path, hist):
                 p.parent.mkdir(parents=True, exist_ok=True)
                 ts = TS.create(base_file=p, cache_size_mb=cache_arg(o))
             elif k == 'create_mem':
-                ts = TS.create(cache_size_mb=e.cache_mb(o['cap']))
+                ts = TS.create(cache_size_mb=e.cache_mb(cap_of(o)))
             elif k == 'open_r':
                 ts = TS.open(base_file=real_path(root, o['p']), cache_size_mb=cache_arg(o))
             elif k == 'open_a':
                 ts = TS.append(base_file=real_path(root, o['p']), cache_size_mb=cache_arg(o))
             elif k == 'add':
-                idx = ts.add(e.mk(o['tag'], o.get('fid'), o.get('sig', 0), o.get('kind', 'ok'),
-                                  o.get('which', 'starting_mass'), npts))
+                tr = e.mk(o['tag'], o.get('fid'), o.get('sig', 0), o.get('kind', 'ok'),
+                          o.get('which', 'starting_mass'), 4000 if big else o.get('npts', 2))
+                if not big and o.get('kind', 'ok') == 'ok':
+                    assert int(tr.nbytes) == size_of_add(o), (int(tr.nbytes), size_of_add(o))
+                idx = ts.add(tr)
                 rec['out'] = ['OIdx', int(idx)]
             elif k == 'get':
                 rec['out'] = ['OItem', tag_of(ts[o['i']])]
@@ -400,19 +435,25 @@ def coq_nats(l):
     return '[' + '; '.join(str(int(x)) for x in l) + ']'
 
 
-def coq_op(o, rec=None):
+def coq_cap(c):
+    assert c is None or 0 <= c < 5000, 'no large nat literals'
+    return 'None' if c is None else f'(Some {int(c)})'
+
+
+def coq_op(o, rec=None, big=False):
     k = o['op']
     if k == 'create':
-        return f"Create {coq_path(o['p'])}"
+        return f"Create {coq_path(o['p'])} {coq_cap(cap_of(o, big))}"
     if k == 'create_mem':
-        return f"CreateMem {int(o['cap'])}"
+        return f"CreateMem {int(cap_of(o, big))}"
     if k == 'open_r':
-        return f"OpenR {coq_path(o['p'])}"
+        return f"OpenR {coq_path(o['p'])} {coq_cap(cap_of(o, big))}"
     if k == 'open_a':
-        return f"OpenA {coq_path(o['p'])}"
+        return f"OpenA {coq_path(o['p'])} {coq_cap(cap_of(o, big))}"
     if k == 'add':
         fid = 'None' if o.get('fid') is None else f"(Some ({int(o['fid'])})%Z)"
-        return f"Add (T ({int(o['tag'])}) {fid} ({int(o.get('sig', 0))}) ({0 if o.get('kind', 'ok') == 'ok' else 1}))"
+        return (f"Add (T ({int(o['tag'])}) {fid} ({int(o.get('sig', 0))}) ({0 if o.get('kind', 'ok') == 'ok' else 1}) "
+                f"{int(size_of_add(o, big))})")
     if k == 'get':
         return f"Get {int(o['i'])}"
     if k == 'len':
@@ -439,8 +480,9 @@ def coq_cfg(cfg):
 def coq_history(hist, recs):
     """operations interleaved with the eviction choices the real LRU cache made"""
     ops = []
+    big = any(o.get('big') for o in hist)
     for o, r in zip(hist, recs):
-        ops.append(coq_op(o, r))
+        ops.append(coq_op(o, r, big))
         if r['keys'] is not None and o['op'] != 'close':
             ops.append(f"Evict {coq_nats(r['keys'])}")
     return ops
@@ -484,7 +526,9 @@ class Oracle:
     finding F6 (a rejected missing-required addition to a file store leaves a hole; an in-memory store accepts
     it): used only to recognise that finding narrowly."""
 
-    def __init__(self, f6=False):
+    def __init__(self, f6=False, big=False):
+        self.big = big         # integer-cache-size scenarios: unit sizes
+        self.sizes = {}        # tag -> size of the payload (what a cache is charged for it)
         self.files = {}        # path -> {'items': [(tag, fid)], 'sig', 'ident'}
         self.merged = {}       # path -> [{'items', 'sig', 'ident'}]
         self.limbo = False     # after an interrupted merge the places of the inputs are not determined
@@ -520,7 +564,8 @@ class Oracle:
             return None
         return {'kind': h['kind'], 'mode': h['mode'], 'n_open': h['n_open'], 'adds': h['adds'],
                 'touched': h['touched'], 'items': list(self.items()), 'def': self.definition(),
-                'rejected_missing': h['rejected_missing'], 'path': h.get('path')}
+                'rejected_missing': h['rejected_missing'], 'path': h.get('path'), 'cap': h.get('cap'),
+                'sizes': self.sizes}
 
     def step(self, o):
         k = o['op']
@@ -537,11 +582,12 @@ class Oracle:
             p = self.key(o['p'])
             if p in self.files or p in self.merged:
                 return ['OErr', 'EExists']
-            self.h = dict(kind='file', path=p, mode='create', n_open=0, adds=0, touched=False, rejected_missing=0)
+            self.h = dict(kind='file', path=p, mode='create', n_open=0, adds=0, touched=False, rejected_missing=0,
+                          cap=cap_of(o, self.big))
             return 'OUnit'
         if k == 'create_mem':
-            self.h = dict(kind='mem', items=[], cap=o['cap'], mode='create', **{'def': None}, n_open=0, adds=0,
-                          touched=False, rejected_missing=0)
+            self.h = dict(kind='mem', items=[], cap=cap_of(o, self.big), used=0, mode='create', **{'def': None}, n_open=0,
+                          adds=0, touched=False, rejected_missing=0)
             return 'OUnit'
         if k in ('open_r', 'open_a'):
             p = self.key(o['p'])
@@ -549,12 +595,13 @@ class Oracle:
                 if k == 'open_a':
                     return ['OErr', 'EMergedAppend']
                 self.h = dict(kind='merged', path=p, mode='read', n_open=len([x for q in self.merged[p] for x in q['items']]),
-                              adds=0, touched=False, rejected_missing=0)
+                              adds=0, touched=False, rejected_missing=0, cap=cap_of(o, self.big))
                 return 'OUnit'
             if p not in self.files:
                 return ['OErr', 'EMissing']
             self.h = dict(kind='file', path=p, mode='read' if k == 'open_r' else 'append',
-                          n_open=len(self.files[p]['items']), adds=0, touched=False, rejected_missing=0)
+                          n_open=len(self.files[p]['items']), adds=0, touched=False, rejected_missing=0,
+                          cap=cap_of(o, self.big))
             return 'OUnit'
         if k == 'add':
             if h['mode'] == 'read':
@@ -562,13 +609,17 @@ class Oracle:
             d = self.definition()
             has_id = o.get('fid') is not None
             sig = o.get('sig', 0)
+            size = size_of_add(o, self.big)
             ok = o.get('kind', 'ok') == 'ok' and (d is None or (d[0] == sig and d[1] == has_id))
             if not ok:
                 if self.f6 and o.get('kind', 'ok') == 'missing' and (d is None or (d[0] == sig and d[1] == has_id)):
                     if h['kind'] == 'mem':
-                        if len(h['items']) >= h['cap']:
+                        if size > h['cap']:
+                            return ['OErr', 'ETooLarge']
+                        if h['used'] + size > h['cap']:
                             return ['OErr', 'EFull']
                         n = len(h['items'])
+                        h['used'] += size
                         h['items'].append((o['tag'], o.get('fid')))
                         if h['def'] is None:
                             h['def'] = (sig, has_id)
@@ -578,10 +629,15 @@ class Oracle:
                     h['adds'] += 1                 # physically the file has grown
                 h['rejected_missing'] += 1 if o.get('kind', 'ok') == 'missing' else 0
                 return ['OErr', 'EReject']
+            # the store keeps every trajectory it accepted; one that is larger than the whole cache is refused,
+            # and an in-memory store refuses what does not fit any more (it cannot evict)
+            if h['cap'] is not None and size > h['cap']:
+                return ['OErr', 'ETooLarge']
             if h['kind'] == 'mem':
-                if len(h['items']) >= h['cap']:
+                if h['used'] + size > h['cap']:
                     return ['OErr', 'EFull']
                 n = len(h['items'])
+                h['used'] += size
                 h['items'].append((o['tag'], o.get('fid')))
                 if h['def'] is None:
                     h['def'] = (sig, has_id)
@@ -591,6 +647,7 @@ class Oracle:
                 st['items'].append((o['tag'], o.get('fid')))
             h['adds'] += 1
             h['touched'] = True
+            self.sizes[o['tag']] = size
             return ['OIdx', n]
         if k == 'get':
             it = self.items()
@@ -705,6 +762,17 @@ def classify(hist, k, impl, want, ctx, want_f6, ctx6=None):
     """signature of the finding whose formula explains the first disagreement (op k), or None"""
     o = hist[k]
     op = o['op']
+    # C07a: a stored trajectory that is larger than the whole cache of this session cannot be read
+    if ctx and ctx['kind'] in ('file', 'merged') and ctx.get('cap') is not None and op in ('get', 'iter', 'get_flight'):
+        def oversized(tag):
+            return ctx['sizes'].get(tag, 0) > ctx['cap']
+        if op in ('get', 'get_flight') and impl == ['OErr', 'ETooLarge'] and isinstance(want, list) \
+                and want[0] == 'OItem' and oversized(want[1]):
+            return SIG['C07a']
+        if op == 'iter' and isinstance(impl, list) and impl[0] == 'OItems' and impl[2] == 'ETooLarge' \
+                and isinstance(want, list) and want[0] == 'OItems' and impl[1] == want[1][:len(impl[1])] \
+                and len(impl[1]) < len(want[1]) and oversized(want[1][len(impl[1])]):
+            return SIG['C07a']
     # F8: in-memory identified store
     if ctx and ctx['kind'] == 'mem' and op in ('get_flight', 'close', 'sync') and impl == ['OErr', 'EKeyBase'] \
             and ctx['def'] is not None and ctx['def'][1]:
@@ -822,8 +890,19 @@ def judge(chk: Check, hc, recs, view, mr, cfg, nontrivial, leftovers=True):
         chk.count('op:' + o['op'] + (':' + o['kind'] if o.get('kind', 'ok') != 'ok' else '')
                   + (':fault' if o.get('fault') is not None else ''))
     # ---- oracle ----
+    pending_refusal = False
+    for o, r in zip(hist, recs):
+        if o['op'] in ('create', 'create_mem', 'open_r', 'open_a', 'close'):
+            pending_refusal = False
+        if o['op'] == 'add' and r['out'] in (['OErr', 'EFull'], ['OErr', 'ETooLarge']):
+            chk.count('add-refused:' + r['out'][1])
+            pending_refusal = True
+        elif o['op'] == 'add' and isinstance(r['out'], list) and r['out'][0] == 'OIdx' and pending_refusal:
+            chk.count('add-accepted-after-refused-insertion')
+            pending_refusal = False
     # the F6 formula (holes) is only on offer while the tree shows F6
-    orc, orc6 = Oracle(), Oracle(f6=not cfg['F6'])
+    big = any(o.get('big') for o in hist)
+    orc, orc6 = Oracle(big=big), Oracle(f6=not cfg['F6'], big=big)
     found = []              # (op index, expected, signature)
     wants = []
     cut = None              # the model is compared up to and including this operation
@@ -836,7 +915,7 @@ def judge(chk: Check, hc, recs, view, mr, cfg, nontrivial, leftovers=True):
         if not agrees(o, r['out'], want):
             sig = classify(hist, k, r['out'], want, ctx, want6, ctx6)
             found.append((k, want, sig))
-            if sig == SIG['F5']:
+            if sig in (SIG['F5'], SIG['C07a']):
                 continue                      # a wrong read changes nothing: the reference stays valid
             oracle_alive = False
             if sig is None or sig in (SIG['F6'], SIG['F8'], SIG['C08a'], SIG['C10a']):
@@ -1002,14 +1081,32 @@ class Gen:
         self.nbase = {0: 0, 1: 0}          # next file name per directory
         self.nout = 0
         self.plan = {}                      # path -> (sig, ident)
+        # payloads of different sizes (284 / 620 / 1404 bytes) and caches given in bytes: additions refused because
+        # the value is larger than the whole cache, or because an in-memory store would have to evict, followed by
+        # smaller ones that still fit
+        self.mixed = focus in ('C07', 'C10') and rng.random() < 0.5
+        self.maxsz = {}                     # path -> largest payload stored there
 
     # -- helpers --
     def emit(self, o):
         self.ops.append(o)
-        return self.orc.step(o)
+        path = (self.orc.h or {}).get('path')
+        r = self.orc.step(o)
+        if o['op'] == 'add' and isinstance(r, list) and r[0] == 'OIdx' and path is not None:
+            self.maxsz[path] = max(self.maxsz.get(path, 0), size_of_add(o))
+        if o['op'] == 'merge' and r == 'OUnit':
+            self.maxsz[tuple(o['out'])] = max([self.maxsz.get(tuple(p), 0) for p in o['ins']] + [0])
+        return r
 
-    def cache(self):
-        return self.rng.choice([1, 1, 1, 2, 2, 3, None])
+    def cache(self, need=0):
+        """the cache a session asks for; a session that reads a store must be able to hold its largest item"""
+        if self.mixed:
+            opts = [b for b in (300, 700, 700, 1500, 1500, 3000) if b >= need] + [None]
+            return {'cache_b': self.rng.choice(opts)}
+        k = self.rng.choice([1, 1, 1, 2, 2, 3, None])
+        if k is not None and k * NB + 100 < need:
+            k = None
+        return {'cache': k}
 
     def new_tag(self):
         self.tag += 1
@@ -1021,6 +1118,10 @@ class Gen:
             o['fid'] = self.ids.pop()
         if sig:
             o['sig'] = sig
+        if self.mixed:
+            npts = self.rng.choice([2, 2, 2, 2, 5, 5, 12])
+            if npts != 2:
+                o['npts'] = npts
         return o
 
     def invalid_add(self, sig, ident, allow_sig=True):
@@ -1132,7 +1233,7 @@ class Gen:
             sig = 1 if rng.random() < 0.15 else 0
         if ident is None:
             ident = rng.random() < {'C07': 0.3, 'C08': 0.9, 'C09': 0.6, 'C10': 0.5}[self.focus]
-        self.emit(dict(op='create', p=p, cache=self.cache()))
+        self.emit(dict(op='create', p=p, **self.cache()))
         self.orc.h['plan'] = (sig, ident)
         for _ in range(minadds):
             self.emit(self.valid_add(sig, ident))
@@ -1141,7 +1242,10 @@ class Gen:
 
     def mem_store(self, maxops=10):
         rng = self.rng
-        self.emit(dict(op='create_mem', cap=rng.choice([1, 2, 3, 4, 6])))
+        if self.mixed:
+            self.emit(dict(op='create_mem', cap_b=rng.choice([300, 700, 1500, 1600, 2000, 3000])))
+        else:
+            self.emit(dict(op='create_mem', cap=rng.choice([1, 2, 3, 4, 6])))
         self.orc.h['plan'] = (0, rng.random() < {'C07': 0.0, 'C08': 0.9, 'C09': 0.3, 'C10': 0.0}[self.focus])
         self.session(maxops)
 
@@ -1152,7 +1256,7 @@ class Gen:
             return
         p = list(rng.choice(files))
         mode = mode or ('open_a' if rng.random() < (0.6 if tuple(p) in self.orc.files else 0.1) else 'open_r')
-        r = self.emit(dict(op=mode, p=p, cache=self.cache()))
+        r = self.emit(dict(op=mode, p=p, **self.cache(self.maxsz.get(tuple(p), 0))))
         if r == 'OUnit':
             self.session(maxops)
 
@@ -1223,7 +1327,7 @@ class Gen:
     def read_merged(self, out, thorough=True):
         """open the merged directory and read at every seam"""
         rng, orc = self.rng, self.orc
-        if self.emit(dict(op='open_r', p=out, cache=self.cache())) != 'OUnit':
+        if self.emit(dict(op='open_r', p=out, **self.cache(self.maxsz.get(tuple(out), 0)))) != 'OUnit':
             return
         parts = orc.merged[tuple(out)]
         self.emit(dict(op='len'))
@@ -1451,7 +1555,7 @@ def assoc_merge_scenarios(chk: Check, rng, n):
         bases, assocs, expect, t = [], [], [], 1
         for i, sz in enumerate(sizes):
             bp, ap = root / f'b{i}.nc', root / f'a{i}.nc'
-            with TS.create(base_file=bp, associated_files=[(ap, [XFS])], cache_size_mb=e.cache_mb(rng.choice([1, 2, None]))) as ts:
+            with TS.create(base_file=bp, associated_files=[(ap, [XFS])], cache_size_mb=e.cache_mb(rng.choice([NB + 100, 2 * NB + 100, None]))) as ts:
                 for _ in range(sz):
                     ts.add(e.mk(t, (5000 - t) if ident else None, 1, 'ok'))
                     expect.append((t, 1000 + t, (5000 - t) if ident else None))
@@ -1466,7 +1570,7 @@ def assoc_merge_scenarios(chk: Check, rng, n):
             TS.merge(output_store=mb, input_stores=bases)
             TS.merge(output_store=ma, input_stores=assocs)
             gc.collect()
-            with TS.open(base_file=mb, associated_files=[ma], cache_size_mb=e.cache_mb(rng.choice([1, 2, None]))) as ts:
+            with TS.open(base_file=mb, associated_files=[ma], cache_size_mb=e.cache_mb(rng.choice([NB + 100, 2 * NB + 100, None]))) as ts:
                 got_len = len(ts)
                 order = list(range(len(expect)))
                 rng.shuffle(order)
@@ -1525,3 +1629,24 @@ def replay_property(chk: Check, rp, props: str, nontrivial):
     case = rp.get('case') or {}
     if 'ops' in case:
         check_histories(chk, [{'name': case.get('name', 'replay'), 'ops': case['ops']}], cfg, nontrivial, label='r')
+
+
+def oversized_read_scenarios():
+    """FC07a: a session whose cache is smaller than one stored trajectory must still be able to read it (C07:
+    "regardless of how small the in-memory cache is").  Oracle only: the Coq model keeps the harness convention that
+    a reading session can hold the largest item."""
+    out = []
+    P = [0, 0, 0]
+    for mode in ('open_r', 'open_a'):
+        ops = [dict(op='create', p=P), A(tag=1), A(tag=2, npts=12), A(tag=3), A(tag=4, npts=5), dict(op='close'),
+               dict(op=mode, p=P, cache_b=700), dict(op='len'), dict(op='get', i=0), dict(op='get', i=1), dict(op='get', i=3),
+               dict(op='iter'), dict(op='get', i=2), dict(op='close'),
+               dict(op='open_r', p=P, cache_b=300), dict(op='get', i=3), dict(op='get', i=1), dict(op='get', i=0), dict(op='close')]
+        out.append({'name': f'read-item-larger-than-cache:{mode}', 'ops': ops})
+    ops = [dict(op='create', p=P), A(tag=1, fid=9), A(tag=2, npts=12, fid=4), dict(op='close'),
+           dict(op='create', p=[0, 1, 0]), A(tag=3, fid=7), dict(op='close'),
+           dict(op='merge', out=[0, 5, 1], ins=[P, [0, 1, 0]]),
+           dict(op='open_r', p=[0, 5, 1], cache_b=700), dict(op='get', i=1), dict(op='get_flight', id=4), dict(op='get', i=2),
+           dict(op='iter'), dict(op='close')]
+    out.append({'name': 'read-item-larger-than-cache:merged', 'ops': ops})
+    return out
